@@ -17,7 +17,7 @@
    when no write transaction is open. *)
 EXTENDS Integers, Sequences, FiniteSets, TLC
 
-CONSTANTS Contents,        \* contents a write transaction may produce: [serial |-> Nat \ {0}, items |-> set]
+CONSTANTS Contents,        \* contents a write transaction may produce: [serial |-> Nat, items |-> set]
           Rids,            \* reader handles
           MaxVersionArgs,  \* integer arguments of set_max_versions (values < 1 are refused)
           CustomPolicies,  \* names of custom pruning predicates (see Prunes)
@@ -34,7 +34,7 @@ VARIABLES versions,   \* retained versions, oldest first: Seq([id, content])
 
 vars == <<versions, allIds, published, readers, policy, writer, res>>
 
-Empty == [serial |-> 0, items |-> {}]          \* the content of a new zone: nothing, no SOA
+Empty == [serial |-> -1, items |-> {}]         \* the content of a new zone: nothing, no SOA (-1: 0 is a valid SOA serial)
 NoWriter == [state |-> "none", repl |-> FALSE, work |-> Empty]
 
 Last(s) == s[Len(s)]
@@ -90,7 +90,7 @@ OpenById(r, n) ==
    is meant: any of them is allowed. *)
 OpenBySerial(r, s) ==
     /\ r \notin DOMAIN readers
-    /\ LET C == {i \in 1..Len(versions) : versions[i].content.serial = s /\ s # 0}
+    /\ LET C == {i \in 1..Len(versions) : versions[i].content.serial = s /\ s >= 0}
        IN IF C # {} THEN \E i \in C : OpenOn(r, i) ELSE Refuse
 
 (* zone.reader(id=n, serial=s) *)
